@@ -68,6 +68,17 @@ def add_name_clashes(rng, pkg: pg.Pkg) -> None:
     if rng.random() < 0.5 and pkg.modules:
         m = rng.choice(pkg.modules)
         m.decls.append(pg.Fn(f"sameas_{m.name.strip('_')}"))
+    # modules whose names start with two or three underscores: written as a module stub (a declaration re-exported by a
+    # package that is not nearer to the root keeps the module stub) and re-exported as a whole module without alias
+    if pkg.modules:
+        home = rng.choice(pkg.modules).pkg
+        n = len(pkg.modules)
+        deep = pg.Mod(home, f"__deepmod{n}", decls=[pg.Fn(f"deep_fn{n}"), pg.Cls(f"DeepCls{n}", methods=[pg.Fn("go", role="inst")])])
+        wide = pg.Mod(("pk",), f"___widemod{n}", decls=[pg.Fn(f"wide_fn{n}"), pg.Fn(f"wide_other{n}")])
+        pkg.modules += [deep, wide]
+        pkg.inits.setdefault(tuple(home), []).append(pg.Reexport("modalias", deep.qname, None, None, "rel"))
+        if len(home) > 1:
+            pkg.inits.setdefault(tuple(home), []).append(pg.Reexport("name", wide.qname, f"wide_fn{n}", None, "abs"))
 
 
 def _module_reexport_names(pkg: pg.Pkg, package: str) -> set:
